@@ -85,12 +85,30 @@ def generate(ctx):
 
 
 def run(ctx):
-    cov, findings, known = runner.correspondence("C06", ctx, __import__("props.c06", fromlist=["x"]))
+    rops = ctx.get("replay_ops")
+    if rops and all(o.startswith("IDENT ") for o in rops):      # replay of an IDENT op: only the second correspondence applies
+        cov, findings, known = {}, [], []
+    else:
+        cov, findings, known = runner.correspondence("C06", ctx, __import__("props.c06", fromlist=["x"]))
     cov["generated"] = _state["gen"]
     cov["generated_obligations"] = ["serveSign_generated", "signCmd_generated", "appendTo_generated", "record_is_init_record",
                                     "auditNew_generated", "setCerts_generated", "setters_generated", "init_generated",
                                     "serveSign_fields_generated", "signCmd_fields_generated", "signers_generated"]
-    return cov, findings, known
+    # how the record names the certificate (sig.x509.subject = LDAP-style DN, client.dn = OpenSSL-style DN, assembly.publicKeyToken):
+    # IDENT ops of checklib/models/ident.py, a second correspondence under the pseudo-property C06ID (harness/cmd/vh/ident.go)
+    import types
+    from composite import install as _install
+    ns = {"TIE": "corr:ident", "TIE_THEOREM": "Relic.Props.C06.audit_subject_identifies_certificate_partial / audit_subject_total "
+          "(model Relic.Model.Ident vs x509tools.FormatPkixName and the audit record written next to the real appmanifest signer)"}
+    _install(ns, "C06", ["ident"])
+    if rops and not all(o.startswith("IDENT ") for o in rops):
+        return cov, findings, known
+    c2, f2, k2 = runner.correspondence("C06ID", ctx, types.SimpleNamespace(**ns))
+    for key in ("evaluations", "op_lines", "distinct_nontrivial", "traces_validated_against_impl"):
+        cov[key] = cov.get(key, 0) + c2.get(key, 0)
+    cov.setdefault("op_kinds", {}).update(c2.get("op_kinds", {}))
+    cov["rule"] = cov.get("rule", RULE) + " || " + ns["RULE"]
+    return cov, findings + f2, known + k2
 
 
 def canon_impl(il):
